@@ -82,6 +82,8 @@ def gen_table(rng):
         spec["late_column"] = {"after_rows": k, "column": spec["columns"][-1]}
     if rng.random() < 0.2:
         spec["decor"] = SP._decor("table", rng)      # header / footer / border / title styles, title justification
+    if ncols >= 2 and nrows >= 1 and rng.random() < 0.05:
+        spec["rejected_row_before"] = rng.randrange(nrows)
     spec["title"] = rng.choice([None, None, "TTT", "TITLE TITLE TITLE"])
     spec["caption"] = rng.choice([None, None, "CCC"])
     if rng.random() < (0.6 if tiny else 0.3):
@@ -132,6 +134,8 @@ def table_features(spec, W, m):
         f.append("widths_above_256")
     if spec.get("late_column"):
         f.append("column_added_after_rows")
+    if spec.get("rejected_row_before") is not None:
+        f.append("after_a_rejected_add_row")
     return "+".join(f) or "plain"
 
 
@@ -297,6 +301,26 @@ def wl_tables(ctx, rng, case_no):
                         ctx.count("mon.presence")
                         ctx.violation("cell-character-missing-although-column-has-room:" + feats,
                                       dict(wit, char=ch, column=j, row=rk, content_width=content))
+                        break
+                    elif (c["k"] == "text" and c.get("overflow") is None and col["max_width"] is None
+                          and (col.get("width") is None) and content < need):
+                        # the width solver gave this column fewer content cells than its widest character needs
+                        # although the available width is at or above the table's structural minimum (every case here
+                        # is): the statement promises the characters, the solver does not deliver the cells
+                        cause = []
+                        if need == 2:
+                            cause.append("wide-character")
+                        if any(cc["ratio"] for cc in spec["columns"]):
+                            cause.append("ratio")
+                        if not spec["pad_edge"] or spec["collapse_padding"]:
+                            cause.append("unequal-column-padding")
+                        if spec["min_width"] is not None:
+                            cause.append("min_width")
+                        ctx.count("mon.presence")
+                        ctx.violation("fold-column-given-less-than-one-character-at-or-above-the-structural-minimum:%s"
+                                      % ("+".join(cause) or "plain"),
+                                      dict(wit, char=ch, column=j, row=rk, content_width=content, needs=need,
+                                           slack=W - m))
                         break
                 else:
                     ctx.count("mon.presence")
